@@ -504,7 +504,13 @@ func (h *c09hist) step() {
 			if len(lmodel) > 1 && rng.Intn(5) == 0 {
 				x := lmodel[rng.Intn(len(lmodel))]
 				var err error
-				if p := tryP(func() { err = sl.RemoveBytes(x.owner, []byte(x.data)) }); p != "" || err != nil {
+				if p := tryP(func() {
+					if rng.Intn(2) == 0 {
+						err = sl.RemoveBytes(x.owner, []byte(x.data))
+					} else {
+						err = sl.RemoveSignature(signature.SignatureData{Owner: x.owner, Data: []byte(x.data)})
+					}
+				}); p != "" || err != nil {
 					h.viol("List.RemoveBytes|failed", fmt.Sprintf("%v %s", err, p))
 					return
 				}
@@ -526,6 +532,34 @@ func (h *c09hist) step() {
 		}
 		if len(lmodel) == 0 {
 			return
+		}
+		// list-level queries: ExistsInList of a sub-list / of a list with a stranger; SignatureData.Bytes
+		{
+			sub := signature.NewSignatureList(t)
+			sub.AppendBytes(lmodel[0].owner, []byte(lmodel[0].data))
+			var in1, in2 bool
+			var enc []byte
+			if p := tryP(func() {
+				in1 = sl.ExistsInList(sub)
+				stranger := signature.NewSignatureList(t)
+				stranger.AppendBytes(lmodel[0].owner, append([]byte(lmodel[0].data), 0x77)[1:])
+				in2 = sl.ExistsInList(stranger)
+				sd := signature.SignatureData{Owner: lmodel[0].owner, Data: []byte(lmodel[0].data)}
+				enc = sd.Bytes()
+			}); p != "" {
+				h.viol("List.ExistsInList|panic", p)
+				return
+			}
+			h.r.Count("op_List.ExistsInList", 1)
+			if !in1 || in2 {
+				h.viol("List.ExistsInList|wrong", fmt.Sprintf("ExistsInList(sub-list)=%v, ExistsInList(list with an absent entry)=%v", in1, in2))
+				return
+			}
+			want := append(append([]byte(nil), fromLib(lmodel[0].owner).Wire()...), lmodel[0].data...)
+			if !bytes.Equal(enc, want) {
+				h.viol("SignatureData.Bytes|wrong", "SignatureData.Bytes() is not owner(wire)‖data")
+				return
+			}
 		}
 		// Exists(list) query before deciding what to do with the list
 		allIn := true
